@@ -84,8 +84,8 @@ add("F3", ["C01"], "C01.ops|op|ModF", "ModF: VM uses f64 `%` (fmod), WASM comput
 
 # ---- bounded encodings (shared rule C01.bounds, also cited by C03) ---------------------------------------
 B = ["C01", "C03"]
-add("F4", B, "C01.bounds|cast|compiler::bytecodegen::ByteCodeGenerator::get_or_insert_global|usize->u8|call:sum|x1", "GlobalPos = u8: with more than 255 global words global addresses alias on the VM (g43 + g299 = 598 on VM, 342 on WASM)")
-add("F4", B, "C01.bounds|cast|compiler::bytecodegen::ByteCodeGenerator::get_or_insert_global|usize->u8|place:proj|x1", "GlobalPos = u8 (lookup path of the same truncation)")
+add("F4", B, "C01.bounds|cast|compiler::bytecodegen::ByteCodeGenerator|usize->u8|call:sum|x1", "GlobalPos = u8: with more than 255 global words global addresses alias on the VM (g43 + g299 = 598 on VM, 342 on WASM)")
+add("F4", B, "C01.bounds|cast|compiler::bytecodegen::ByteCodeGenerator|usize->u8|place|x1", "GlobalPos = u8 (lookup path of the same truncation)")
 add("F6", B, "C01.bounds|checked-unwrap|compiler::bytecodegen::ByteCodeGenerator::emit_instruction|HFloat", "array literal with more than 2049 elements: HFloat::try_from(i as f64).unwrap() panics in the bytecode generator; WASM compiles it")
 add("F5", B, "C01.bounds|bump|next_global_offset", "WASM global region 256..512 is never bounded: 150 globals overlap the state-exchange and allocation areas (dsp returns 126 instead of 225)")
 add("F26", ["C01"], "C01.tables|name|not", "builtin `not` exists only in the VM's builtin table: the WASM generator neither resolves it as an import nor is it lowered as an intrinsic; `not(0.0) + 1.0` is 2.0 on the VM and 1.0 on WASM (findings/repro/F26_builtin_not.mmm)")
